@@ -271,7 +271,7 @@ pub fn run_history_property<H: HB>(prop: &'static str, tier: Tier) -> Outcome {
     }
     let uni0 = cfg.universe();
     let mk0 = |ex: &mut Explorer<H>| {
-        if prop == "C11" {
+        if prop == "C11" || prop == "C03" {
             for p in crate::probes::all_probes::<H>(prop, &uni0) {
                 ex.probes.push(p);
             }
@@ -380,8 +380,11 @@ pub fn run_probe_property<H: HB>(prop: &'static str, tier: Tier) -> Outcome {
         "C16" => A_CLEAR_DRAIN | A_DRAIN_FORGET,
         // sorted consumption after in-place mutation from either end
         "C06" => A_ITER_MUT | A_ITER_MUT_BACK | A_RETAIN_MUT,
+        // iterators over queues that went through the bulk paths too
+        "C13" | "C09" => A_APPEND | A_RETAIN | A_EXTEND,
         _ => 0,
     });
+    cfg.append_max = 2;
     cfg.deep = false;
     let universe = cfg.universe();
     let mk = |ex: &mut Explorer<H>| {
@@ -773,7 +776,7 @@ pub fn run_c08<H: HB>(tier: Tier) -> Outcome {
             return out;
         }
     }
-    for n in if q { vec![6usize, 7, 8] } else { vec![6, 7, 8, 9, 16, 17] } {
+    for n in if q { vec![6usize, 7, 8, 11, 12, 16] } else { vec![6, 7, 8, 9, 10, 11, 12, 15, 16, 17, 31, 32, 33] } {
         let mut c = seeds_cfg(prop, n, &REL_BIN, alpha & !A_REACH | A_POP);
         c.deep = n <= 9;
         let seeds = if n <= 8 { f_bin(n) } else { f_seg(n) };
@@ -871,7 +874,63 @@ pub fn run_c14<H: HB>(tier: Tier) -> Outcome {
         Ok(c)
     });
     absorb_post(&mut out, "== across hashers: all pairs (fnv-hashed state, all-colliding-hashed state)", cases, viol, t0, json!({"states_a": na.len(), "states_b": nb.len()}));
+    if !out.violations.is_empty() {
+        return out;
+    }
+    // larger queues built independently: different histories, different hasher instances
+    // (every std RandomState instance has its own keys), different hasher types
+    let t0 = Instant::now();
+    let mut cases = 0u64;
+    let mut viol = vec![];
+    'outer: for n in if q { vec![15usize, 16, 17, 33] } else { vec![15, 16, 17, 18, 31, 32, 33, 64, 65] } {
+        for seed in f_struct(n) {
+            let Root::FromVec(pairs) = &seed else { continue };
+            for d in [false, true] {
+                cases += 1;
+                let r = if d { big_equality::<DPQ<StdRandom>, DPQ<StdRandom>, DPQ<FnvBuild>>(pairs, |a, b| a == b, |a, b| a == b, |a, b| b == a) } else { big_equality::<PQ<StdRandom>, PQ<StdRandom>, PQ<FnvBuild>>(pairs, |a, b| a == b, |a, b| a == b, |a, b| b == a) };
+                if let Err(e) = r {
+                    viol.push(Case { prop: prop.into(), hasher: StdRandom::NAME.into(), double: d, root: seed.clone(), ops: vec![], last: None, probe: Some("big-equality".into()), detail: e, universe: vec![], aux: None, trail: vec![], params: vec![] });
+                    break 'outer;
+                }
+            }
+        }
+    }
+    absorb_post(&mut out, "== on queues of 15..33 (65) elements built independently (From<Vec> / pushes in reverse order / FromIterator with another hasher type; separate RandomState instances), then one priority changed / one item removed", cases, viol, t0, json!({}));
     out
+}
+
+/// a: From<Vec>, b: pushes in reverse order (same hasher type, own instance), c: FromIterator with
+/// another hasher type. All equal; after one change unequal.
+pub fn big_equality<A: QueueLike, B: QueueLike, C: QueueLike>(pairs: &[Pair], ab: impl Fn(&A, &B) -> bool, ac: impl Fn(&A, &C) -> bool, ca: impl Fn(&A, &C) -> bool) -> Result<(), String> {
+    let a = A::q_from_vec(pairs.iter().map(|&p| mk(p)).collect());
+    let mut b = B::q_with_hasher();
+    for &p in pairs.iter().rev() {
+        let (i, pr) = mk(p);
+        b.q_push(i, pr);
+    }
+    let c = C::q_from_iter(pairs.iter().map(|&p| mk(p)));
+    if !ab(&a, &b) {
+        return Err(format!("two queues of {} elements with the same contents, built in different orders with separate hasher instances, compare unequal", pairs.len()));
+    }
+    if !ac(&a, &c) || !ca(&a, &c) {
+        return Err(format!("two queues of {} elements with the same contents but different hasher types compare unequal", pairs.len()));
+    }
+    let (k0, _, p0) = pairs[pairs.len() / 2];
+    let mut b2 = b.clone();
+    b2.q_change_priority_b(&Key(k0), Prio::new(p0 + 1));
+    if ab(&a, &b2) {
+        return Err(format!("queues of {} elements differing in the priority of item {k0} compare equal", pairs.len()));
+    }
+    let mut b3 = b.clone();
+    b3.q_remove_b(&Key(k0));
+    if ab(&a, &b3) {
+        return Err(format!("queues of {} and {} elements compare equal", pairs.len(), pairs.len() - 1));
+    }
+    b3.q_push(Item::new(100_000, 0), Prio::new(p0));
+    if ab(&a, &b3) {
+        return Err(format!("queues of {} elements differing in one item compare equal", pairs.len()));
+    }
+    Ok(())
 }
 
 pub fn run_c17<H: HB>(tier: Tier) -> Outcome {
@@ -909,6 +968,21 @@ pub fn run_c17<H: HB>(tier: Tier) -> Outcome {
         if !out.violations.is_empty() {
             return out;
         }
+        let t0 = Instant::now();
+        let mut cases = 0;
+        let mut viol = vec![];
+        for d in [false, true] {
+            crate::crash::set_case(|| Case { prop: prop.into(), hasher: H::NAME.into(), double: d, root: Root::New, ops: vec![], last: None, probe: Some("alloc-failure-grid".into()), detail: String::new(), universe: vec![], aux: None, trail: vec![], params: vec![] });
+            let r = if d { alloc_failure_grid::<DPQ<H>>() } else { alloc_failure_grid::<PQ<H>>() };
+            match r {
+                Ok(c) => cases += c,
+                Err((hist, e)) => viol.push(Case { prop: prop.into(), hasher: H::NAME.into(), double: d, root: Root::New, ops: hist[..hist.len() - 1].to_vec(), last: hist.last().cloned(), probe: Some("alloc-failure-grid".into()), detail: e, universe: vec![], aux: None, trail: vec![], params: vec![] }),
+            }
+        }
+        absorb_post(&mut out, "allocation-failure grid: try_reserve / try_reserve_exact with the k-th allocation failing, k = 0..7, on queues of 0..33 elements (plain / shrunk) x 4 amounts", cases, viol, t0, json!({}));
+        if !out.violations.is_empty() {
+            return out;
+        }
     }
     for n in if q { vec![8usize, 16] } else { vec![7, 8, 9, 16, 17, 33] } {
         let mut c = seeds_cfg(prop, n, &REL_BIN, A_CAPACITY | A_CAPACITY_HUGE | A_POP | A_PUSH);
@@ -926,6 +1000,11 @@ pub fn run_c17<H: HB>(tier: Tier) -> Outcome {
 /// C17: a fully enumerated grid of (history shape, length, amount, call): queues grown by pushes
 /// (so that the three internal tables have their natural, different capacities), optionally
 /// shrunk and pushed again, then every reservation call with every amount 0..=A.
+pub fn replay_alloc_failure(double: bool) -> Result<(), String> {
+    let r = if double { alloc_failure_grid::<DPQ<FnvBuild>>() } else { alloc_failure_grid::<PQ<FnvBuild>>() };
+    r.map(|_| ()).map_err(|e| e.1)
+}
+
 /// Replay of one capacity-grid case: the history is executed on ONE queue, never on clones.
 pub fn replay_capacity_case<Q: QueueLike>(ops: &[Op], last: &Op) -> Result<(), String> {
     let mut q = Q::q_new();
@@ -994,6 +1073,59 @@ fn capacity_grid<Q: QueueLike>(max_len: usize, max_amount: usize) -> Result<u64,
                     for j in 0..amount.min(6) {
                         let o = Op::Push(5000 + j as u32, 0, j as i32);
                         step(&mut q, &o, &mut mm, &mut un).map_err(|e| (h2.clone(), format!("push after {op:?}: {e}")))?;
+                    }
+                }
+            }
+        }
+    }
+    Ok(cases)
+}
+
+/// C17: `try_reserve*` with an allocation failure injected at the k-th allocation it makes (every k):
+/// it must return Err (never abort or panic), leave the contents unchanged and the queue usable.
+fn alloc_failure_grid<Q: QueueLike>() -> Result<u64, (Vec<Op>, String)> {
+    let mut cases = 0;
+    for len in [0usize, 1, 2, 3, 5, 9, 17, 33] {
+        for shrunk in [false, true] {
+            let mut hist: Vec<Op> = (0..len).map(|i| Op::Push(i as u32, 0, (i * 7 % 11) as i32)).collect();
+            if shrunk {
+                hist.push(Op::ShrinkToFit);
+            }
+            for amount in [1usize, 7, 100, 1000] {
+                for exact in [false, true] {
+                    for k in 0..8i64 {
+                        cases += 1;
+                        let mut q = Q::q_new();
+                        let mut m = Model::new();
+                        let mut un = false;
+                        for op in &hist {
+                            step(&mut q, op, &mut m, &mut un).map_err(|e| (hist.clone(), e))?;
+                        }
+                        let op = if exact { Op::TryReserveExact(amount) } else { Op::TryReserve(amount) };
+                        let mut h2 = hist.clone();
+                        h2.push(op.clone());
+                        crate::crash::set_extra(format!("allocation failure injected at allocation #{k} of {op:?} on a queue of {len}"));
+                        arm_alloc_failure(k);
+                        let r = if exact { q.q_try_reserve_exact(amount) } else { q.q_try_reserve(amount) };
+                        let fired = disarm_alloc_failure();
+                        crate::crash::set_extra(String::new());
+                        if fired && r.is_ok() {
+                            // the failed allocation may have been one the call could do without only if
+                            // the promised capacity is there all the same
+                            if q.q_capacity() < len + amount {
+                                return Err((h2, format!("{op:?} returned Ok although allocation #{k} failed and capacity() = {} < {len} + {amount}", q.q_capacity())));
+                            }
+                        }
+                        if !fired && r.is_err() {
+                            return Err((h2, format!("{op:?} failed without any allocation failing")));
+                        }
+                        let s = q.snap();
+                        check_state(&q, &s, &m, false, &[]).map_err(|e| (h2.clone(), format!("after a failed {op:?} (allocation #{k}): {e}")))?;
+                        let mut mm = m.clone();
+                        for j in 0..3 {
+                            step(&mut q, &Op::Push(9000 + j, 0, j as i32), &mut mm, &mut un).map_err(|e| (h2.clone(), format!("push after a failed {op:?}: {e}")))?;
+                        }
+                        step(&mut q, &Op::PopHi, &mut mm, &mut un).map_err(|e| (h2.clone(), format!("pop after a failed {op:?}: {e}")))?;
                     }
                 }
             }
